@@ -11,6 +11,7 @@ import (
 	"time"
 
 	eventbus "github.com/jilio/ebu"
+	"verif/storekit"
 	"verif/vkit"
 )
 
@@ -40,6 +41,11 @@ type Case struct {
 	Setters   bool   `json:"setters,omitempty"` // install legacy hooks with the Set* methods
 	Obs       bool   `json:"obs,omitempty"`     // Observability that replaces the context
 	Conc      int    `json:"conc,omitempty"`    // >1: the publishes are issued by this many concurrent goroutines
+	// Store: the bus persists to "" nothing, "memory" a memory store,
+	// "honour" a store that refuses calls whose context is done (as SQL and
+	// network stores do), "failing" a store that rejects every second append.
+	// Persistence must not change which hooks and handlers run.
+	Store string `json:"store,omitempty"`
 }
 
 type rec struct {
@@ -118,6 +124,21 @@ func Run(c *Case) *vkit.Outcome {
 	}
 	if c.Obs {
 		opts = append(opts, eventbus.WithObservability(obs{}))
+	}
+	if c.Store != "" {
+		st, base := storekit.Wrap(eventbus.NewMemoryStore(), true, true)
+		switch c.Store {
+		case "honour":
+			base.HonourCtx = true
+		case "failing":
+			base.SetHook(func(op string, n, seq int, _ context.Context) storekit.Action {
+				if op == "append" && n%2 == 0 {
+					return storekit.Action{Err: storekit.ErrInjected}
+				}
+				return storekit.Action{}
+			})
+		}
+		opts = append(opts, eventbus.WithStore(st), eventbus.WithPersistenceErrorHandler(func(any, reflect.Type, error) {}))
 	}
 	bus := eventbus.New(opts...)
 	if c.Setters {
